@@ -575,7 +575,7 @@ func (b *batchStates) release() {
 // Streams.
 
 func edgesStream(r *lib.Run) {
-	batches := r.Pick(100, 5000)
+	batches := r.Pick(100, 4000)
 	const per = 100
 	r.ForEach("edges", batches, 8, func(i int, rng *rand.Rand) {
 		g := newGenCtx(rng)
@@ -649,9 +649,9 @@ func multiStream(r *lib.Run) {
 // End to end.
 
 func e2eStream(r *lib.Run) {
-	n := r.Pick(6, 120)
+	n := r.Pick(6, 80)
 	const perRepo = 4
-	r.ForEach("e2e", n, 6, func(i int, rng *rand.Rand) {
+	r.ForEach("e2e", n, 8, func(i int, rng *rand.Rand) {
 		// one experimental configuration per repository
 		g := newGenCtx(rng)
 		exp := g.pickExp(rng)
